@@ -371,14 +371,11 @@ def dead_handle_leftovers(rg, dev, dead_handles, dead_conns):
 
 
 def link_snapshot(rg, dev):
-    host, device, ctl = rg.hosts[dev], rg.devices[dev], rg.controllers[dev]
+    host, device = rg.hosts[dev], rg.devices[dev]
     snap = {}
     for kind in ('cis', 'sco', 'bis'):
         snap[f'host.{kind}'] = set(getattr(host, f'{kind}_links'))
         snap[f'device.{kind}'] = set(getattr(device, f'{kind}_links'))
-    snap['controller.cis'] = {h for h, l in list(ctl.central_cis_links.items()) + list(ctl.peripheral_cis_links.items())
-                              if l.acl_connection is not None}
-    snap['controller.sco'] = {l.handle for l in ctl.sco_links.values() if l.handle}
     return snap
 
 
@@ -398,8 +395,9 @@ def judge_links(r, ctx, proc, cut, cut_dev, waiter_dev, sides, cut_at):
     r.ev('link_table_checks')
 
     def when(dev, table, entries):
-        # a link that was not in the table when the ACL went away (transport: was lost) came into being afterwards:
-        # another mechanism than a link that was not removed
+        # a link that was not in the table when the host stack learnt that the ACL went away (transport: was lost) came
+        # into being afterwards: another mechanism than a link that was not removed (controller entries are compared
+        # with what the device listed at that moment, the controller being ahead of the host by the events in flight)
         snap = ctx['snaps'].get(dev)
         if snap is None:
             return '/connection-object-not-told'
@@ -427,13 +425,13 @@ def judge_links(r, ctx, proc, cut, cut_dev, waiter_dev, sides, cut_at):
             stale = sorted(h for h, l in list(ctl.central_cis_links.items()) + list(ctl.peripheral_cis_links.items())
                            if l.acl_connection is not None and l.acl_connection.handle not in acl)
             if stale:
-                r.bad('tables/cis-links-after-acl-disconnect/controller' + when(dev, 'controller.cis', stale),
+                r.bad('tables/cis-links-after-acl-disconnect/controller' + when(dev, 'device.cis', stale),
                       f'dev{dev}: controller CIS links {stale} still attached to an ACL connection that is gone '
                       f'(controller ACL handles {sorted(acl)}) {where}')
             # (handle 0 is the controller's placeholder for a request its host has not answered, not a link)
             if [l for l in ctl.sco_links.values() if l.handle]:
                 r.bad('tables/sco-links-after-acl-disconnect/controller'
-                      + when(dev, 'controller.sco', [l.handle for l in ctl.sco_links.values() if l.handle]),
+                      + when(dev, 'device.sco', [l.handle for l in ctl.sco_links.values() if l.handle]),
                       f'dev{dev}: controller.sco_links={[l.handle for l in ctl.sco_links.values()]} with ACL handles '
                       f'{sorted(acl)} {where}')
     for rec in watch.links.values():
